@@ -66,3 +66,85 @@ pub fn limit_probe() -> i32 {
     }
     0
 }
+
+pub fn squeeze_probe() -> i32 {
+    use jxlgen::modmodel::{SqueezeParam, Transform};
+    let sp = |h: bool, ip: bool, b: u32, n: u32| SqueezeParam { horizontal: h, in_place: ip, begin_c: b, num_c: n };
+    let variants: Vec<(&str, Vec<SqueezeParam>)> = vec![
+        ("full", vec![sp(false, false, 0, 1), sp(false, true, 1, 1), sp(true, true, 1, 2)]),
+        ("no3", vec![sp(false, false, 0, 1), sp(false, true, 1, 1)]),
+        ("no2", vec![sp(false, false, 0, 1), sp(true, true, 1, 1)]),
+        ("only1", vec![sp(false, false, 0, 1)]),
+        ("3-as-h-notinplace", vec![sp(false, false, 0, 1), sp(false, true, 1, 1), sp(true, false, 1, 2)]),
+        ("3-one-channel", vec![sp(false, false, 0, 1), sp(false, true, 1, 1), sp(true, true, 1, 1)]),
+        ("3-ch2-only", vec![sp(false, false, 0, 1), sp(false, true, 1, 1), sp(true, true, 2, 1)]),
+    ];
+    let dims: Vec<(u32, u32)> = vec![(3, 42), (4, 42), (3, 40), (8, 8), (1, 42), (2, 42)];
+    for (w, h) in dims {
+        for (name, v) in &variants {
+            let mut ok = 0;
+            let mut bad = 0;
+            let mut first = String::new();
+            for seed in 0..6u64 {
+                let mut rng = jxlgen::rng::Rng::new(100 + seed);
+                let opts = jxlgen::imggen::ImgOpts { fixed_dims: Some((w, h)), force_transforms: Some(vec![Transform::Squeeze(v.clone())]), max_extra: 0, bit_depth: Some(8), allow_local: false, ..Default::default() };
+                let Some(img) = jxlgen::imggen::gen_modular_image(&mut rng, &opts) else { continue };
+                if img.infos.len() != 1 {
+                    continue;
+                }
+                match open_image(&img.bytes, Pool::None, true).map_err(|e| e.to_string()).and_then(|i| frame_level_modular::<i32>(&i, 0).map_err(|e| e.to_string())) {
+                    Ok(got) => {
+                        if got[0].2 == img.truth[0].data {
+                            ok += 1
+                        } else {
+                            bad += 1;
+                            if first.is_empty() {
+                                first = "mismatch".into();
+                            }
+                        }
+                    }
+                    Err(e) => {
+                        bad += 1;
+                        if first.is_empty() {
+                            first = e;
+                        }
+                    }
+                }
+            }
+            println!("{w}x{h} {name}: ok {ok} bad {bad} {first}");
+        }
+    }
+    0
+}
+
+pub fn order_probe() -> i32 {
+    let path = std::env::var("LAB_FILE").unwrap_or_else(|_| "/tmp/in.jxl".into());
+    let bytes = std::fs::read(&path).expect("read");
+    let orders: Vec<Vec<usize>> = vec![vec![2], vec![0, 2], vec![1, 2], vec![0, 1, 2], vec![2, 1, 0, 2], vec![1, 0, 2], vec![2, 2]];
+    let mut base: Option<Vec<Vec<u32>>> = None;
+    for o in orders {
+        let image = open_image(&bytes, Pool::None, false).expect("open");
+        let mut last = None;
+        for &k in &o {
+            match image.render_frame(k) {
+                Ok(r) => {
+                    let bits: Vec<Vec<u32>> = r.image_planar().iter().map(|fb| fb.buf().iter().map(|v| v.to_bits()).collect()).collect();
+                    if k == 2 {
+                        last = Some(bits);
+                    }
+                }
+                Err(e) => println!("order {o:?}: render {k} err {e}"),
+            }
+        }
+        if let Some(l) = last {
+            match &base {
+                None => {
+                    println!("order {o:?}: kf2 sample(46,1) ch0 = {}", f32::from_bits(l[0][1 * 58 + 46]));
+                    base = Some(l);
+                }
+                Some(b) => println!("order {o:?}: kf2 equal to first order: {} ; sample = {}", *b == l, f32::from_bits(l[0][1 * 58 + 46])),
+            }
+        }
+    }
+    0
+}
